@@ -10,7 +10,7 @@ for d in glob.glob(ROOT + '/seeded/*-m*'):
     if meta.get('neutralised_by_fix'):
         verdict, detail = f"no longer a defect (fix {meta['neutralised_by_fix']})", 'detected before that fix; see meta.json'
     elif meta.get('out_of_domain'):
-        verdict, detail = 'not claimed: needs a mesh that Mesh.is_valid() rejects', 'detected while such pre-states were explored; see meta.json'
+        verdict, detail = meta.get('out_of_domain_short', 'not claimed: outside the domain of the property'), 'detected while such pre-states were explored; see meta.json'
     elif meta.get('detected_by') is None:
         verdict, detail = 'not run', ''
     else:
